@@ -13,6 +13,47 @@ verus! {
 
 //@include units/lc/model.inc
 
+/// the (generator id, coefficient) view of a Vec of pairs
+pub open spec fn pitems(v: Seq<(GenK, ER)>) -> Seq<(int, int)> { v.map(|i: int, x: (GenK, ER)| (x.0.k@, x.1.v())) }
+/// `v.into_iter()` handed to FromIterator (ASSUMED std contract: the items in order)
+#[verifier::external_body] pub fn pairs_iter_(v: Vec<(GenK, ER)>) -> (r: PairIter) ensures r.pos@ == 0, r.items@ == pitems(v@) { unimplemented!() }
+/// one term e = (generator, coefficient) of the source and the item f produced from it
+pub open spec fn item_ok<F: Fn(&GenK, &ER) -> (GenK, ER)>(f: F, e: (int, int), it: (int, int)) -> bool {
+    exists|x: &GenK, r: &ER, o: (GenK, ER)| #![trigger f.ensures((x, r), o)] x.k@ == e.0 && r.v() == e.1 && f.ensures((x, r), o) && it == (o.0.k@, o.1.v())
+}
+pub open spec fn map_items<F: Fn(&GenK, &ER) -> (GenK, ER)>(f: F, ord: Seq<(int, int)>, items: Seq<(int, int)>) -> bool {
+    items.len() == ord.len() && forall|i: int| 0 <= i < ord.len() ==> #[trigger] item_ok(f, ord[i], items[i])
+}
+/// f's postcondition through a reference (a closure's `ensures` clause that names `f.ensures(..)` directly would capture f by value)
+pub open spec fn ens1<F: Fn(&ER) -> ER>(f: &F, r: &ER, o: ER) -> bool { (*f).ensures((r,), o) }
+pub open spec fn ensg<F: Fn(&GenK) -> GenK>(f: &F, x: &GenK, o: GenK) -> bool { (*f).ensures((x,), o) }
+/// the terms map_gens collects: coefficient kept, generator = some value of f at the old generator
+pub open spec fn gens_items<F: Fn(&GenK) -> GenK>(f: &F, ord: Seq<(int, int)>, items: Seq<(int, int)>) -> bool {
+    items.len() == ord.len() && forall|i: int| 0 <= i < items.len() ==> (#[trigger] items[i]).1 == ord[i].1
+        && exists|x: &GenK, o: GenK| #![trigger ensg(f, x, o)] x.k@ == ord[i].0 && ensg(f, x, o) && items[i].0 == o.k@
+}
+/// for pairwise different generators the formal sum has the listed coefficient at each of them and zero elsewhere
+pub proof fn lemma_acc_distinct(s: Seq<(int, int)>, k: int)
+    requires forall|i: int, j: int| 0 <= i < j < s.len() ==> #[trigger] s[i].0 != #[trigger] s[j].0
+    ensures forall|i: int| 0 <= i < s.len() && #[trigger] s[i].0 == k ==> acc(s, k) == s[i].1,
+        (forall|i: int| 0 <= i < s.len() ==> #[trigger] s[i].0 != k) ==> acc(s, k) == r0(),
+    decreases s.len()
+{
+    if s.len() > 0 {
+        let t = s.drop_last();
+        assert forall|i: int, j: int| 0 <= i < j < t.len() implies #[trigger] t[i].0 != #[trigger] t[j].0 by { assert(t[i] == s[i] && t[j] == s[j]); }
+        lemma_acc_distinct(t, k);
+        let n = s.len() - 1;
+        if s[n].0 == k {
+            assert forall|i: int| 0 <= i < t.len() implies #[trigger] t[i].0 != k by { assert(t[i] == s[i]); assert(s[i].0 != s[n].0); }
+            ax_add_zero(s[n].1);
+            assert forall|i: int| 0 <= i < s.len() && #[trigger] s[i].0 == k implies acc(s, k) == s[i].1 by { if i < n { assert(s[i].0 != s[n].0); } }
+        } else {
+            assert forall|i: int| 0 <= i < s.len() && #[trigger] s[i].0 == k implies acc(s, k) == s[i].1 by { assert(i < n); assert(t[i] == s[i]); }
+            if forall|i: int| 0 <= i < s.len() ==> #[trigger] s[i].0 != k { assert forall|i: int| 0 <= i < t.len() implies #[trigger] t[i].0 != k by { assert(t[i] == s[i]); } }
+        }
+    }
+}
 impl Lc {
     pub fn zero() -> (r: Lc) ensures r.wf(), r.nz(), forall|k: int| r.at(k) == r0(), r.data.m@ =~= Map::<int, int>::empty(),
     //@body impl/Zero@Lc/zero
@@ -183,7 +224,89 @@ impl Lc {
     //@+ closure 0
     //@| -> (out: GenK) ensures out.k@ == xm(x.k@, y.k@)
 
+
+    /// `map`: every term (x, r) is replaced by f(x, r) and the results are collected (equal generators add up, zero terms vanish)
+    pub fn map<F: Fn(&GenK, &ER) -> (GenK, ER)>(&self, f: F) -> (res: Lc)
+        requires forall|x: &GenK, r: &ER| f.requires((x, r)),
+        ensures res.nz(), res.wf(), entries_of(self.data.ord@, self.data.m@), exists|items: Seq<(int, int)>| #[trigger] map_items(f, self.data.ord@, items) && forall|k: int| res.at(k) == acc(items, k),
+    //@body impl/Lc/map for_iter=1 loops=1 collect_via=lc_collect_ vec_elem=(GenK,ER)
+    //@+ pre-raw
+    //@| let ghost mut items: Seq<(int, int)> = Seq::empty(); let ghost ord = self.data.ord@;
+    //@+ loop 0
+    //@| invariant __it0.es@ == ord, entries_of(ord, self.data.m@), 0 <= __it0.pos@ <= ord.len(), items.len() == __it0.pos@, pitems(__cout0@) =~= items,
+    //@|     forall|x: &GenK, r: &ER| f.requires((x, r)),
+    //@|     forall|i: int| 0 <= i < items.len() ==> #[trigger] item_ok(f, ord[i], items[i]),
+    //@| ensures __it0.pos@ == ord.len(),
+    //@| decreases ord.len() - __it0.pos@,
+    //@+ loop 0 begin-raw
+    //@| let ghost out0 = __cout0@; let ghost items0 = items;
+    //@+ loop 0 end
+    //@| items = items0.push((__y0.0.k@, __y0.1.v()));
+    //@| assert(pitems(__cout0@) =~= pitems(out0).push((__y0.0.k@, __y0.1.v())));
+    //@| assert(item_ok(f, ord[__it0.pos@ - 1], items[__it0.pos@ - 1])) by { assert(f.ensures((x, r), __y0)); }
+    //@| assert forall|i: int| 0 <= i < items.len() implies #[trigger] item_ok(f, ord[i], items[i]) by { if i < items0.len() { assert(items[i] == items0[i]); assert(item_ok(f, ord[i], items0[i])); } }
+    //@+ loop 0 after
+    //@| assert(map_items(f, ord, items));
+
+    /// `map_coeffs`: the coefficient of every stored generator is replaced by f(coefficient); generators are kept, zero results vanish
+    pub fn map_coeffs<F: Fn(&ER) -> ER>(&self, f: F) -> (res: Lc)
+        requires forall|r: &ER| f.requires((r,)),
+        ensures res.nz(), res.wf(),
+            forall|k: int| !self.data.m@.dom().contains(k) ==> res.at(k) == r0(),
+            forall|k: int| self.data.m@.dom().contains(k) ==> exists|r: &ER, o: ER| #![trigger f.ensures((r,), o)] r.v() == self.data.m@[k] && f.ensures((r,), o) && res.at(k) == o.v(),
+    //@body impl/Lc/map_coeffs
+    //@+ closure 0 typed
+    //@| x: &GenK, r: &ER
+    //@+ closure 0
+    //@| -> (o: (GenK, ER)) ensures o.0.k@ == x.k@, ens1(&f, r, o.1)
+    //@+ closure 0 hoist
+    //@| // captures only the parameter f
+    //@+ post
+    //@| let ord = self.data.ord@; let m = self.data.m@;
+    //@| let items = choose|items: Seq<(int, int)>| #[trigger] map_items(__cl0, ord, items) && forall|k: int| __ret.at(k) == acc(items, k);
+    //@| assert forall|i: int| 0 <= i < ord.len() implies items[i].0 == ord[i].0 && exists|r: &ER, o: ER| #![trigger f.ensures((r,), o)] r.v() == ord[i].1 && f.ensures((r,), o) && items[i].1 == o.v() by {
+    //@|     assert(item_ok(__cl0, ord[i], items[i]));
+    //@|     let (x, r, o) = choose|x: &GenK, r: &ER, o: (GenK, ER)| #![trigger __cl0.ensures((x, r), o)] x.k@ == ord[i].0 && r.v() == ord[i].1 && __cl0.ensures((x, r), o) && items[i] == (o.0.k@, o.1.v());
+    //@|     assert(f.ensures((r,), o.1));
+    //@| }
+    //@| assert forall|i: int, j: int| 0 <= i < j < items.len() implies #[trigger] items[i].0 != #[trigger] items[j].0 by { assert(ord[i].0 != ord[j].0); }
+    //@| assert forall|k: int| !m.dom().contains(k) implies __ret.at(k) == r0() by {
+    //@|     lemma_acc_distinct(items, k);
+    //@|     assert forall|i: int| 0 <= i < items.len() implies #[trigger] items[i].0 != k by { assert(m.dom().contains(ord[i].0)); }
+    //@| }
+    //@| assert forall|k: int| m.dom().contains(k) implies exists|r: &ER, o: ER| #![trigger f.ensures((r,), o)] r.v() == m[k] && f.ensures((r,), o) && __ret.at(k) == o.v() by {
+    //@|     let i = choose|i: int| 0 <= i < ord.len() && #[trigger] ord[i].0 == k;
+    //@|     lemma_acc_distinct(items, k);
+    //@|     assert(items[i].0 == k);
+    //@|     assert(m[k] == ord[i].1);
+    //@| }
+    /// `map_gens`: every generator x is replaced by f(x), coefficients kept; generators that collide add up, zero sums vanish
+    pub fn map_gens<F: Fn(&GenK) -> GenK>(&self, f: F) -> (res: Lc)
+        requires forall|x: &GenK| f.requires((x,)),
+        ensures res.nz(), res.wf(),
+            exists|items: Seq<(int, int)>| #[trigger] gens_items(&f, self.data.ord@, items) && forall|k: int| res.at(k) == acc(items, k),
+    //@body impl/Lc/map_gens
+    //@+ closure 0 typed
+    //@| x: &GenK, r: &ER
+    //@+ closure 0
+    //@| -> (o: (GenK, ER)) ensures ensg(&f, x, o.0), o.1.v() == r.v()
+    //@+ closure 0 hoist
+    //@| // captures only the parameter f
+    //@+ post
+    //@| let ord = self.data.ord@;
+    //@| let items = choose|items: Seq<(int, int)>| #[trigger] map_items(__cl0, ord, items) && forall|k: int| __ret.at(k) == acc(items, k);
+    //@| assert forall|i: int| 0 <= i < items.len() implies (#[trigger] items[i]).1 == ord[i].1 && exists|x: &GenK, o: GenK| #![trigger ensg(&f, x, o)] x.k@ == ord[i].0 && ensg(&f, x, o) && items[i].0 == o.k@ by {
+    //@|     assert(item_ok(__cl0, ord[i], items[i]));
+    //@|     let (x, r, o) = choose|x: &GenK, r: &ER, o: (GenK, ER)| #![trigger __cl0.ensures((x, r), o)] x.k@ == ord[i].0 && r.v() == ord[i].1 && __cl0.ensures((x, r), o) && items[i] == (o.0.k@, o.1.v());
+    //@|     assert(ensg(&f, x, o.0));
+    //@| }
+    //@| assert(gens_items(&f, ord, items));
 } // impl Lc
+/// `collect::<Lc>()` of a Vec's items = FromIterator::from_iter on them (rule R45)
+pub fn lc_collect_(v: Vec<(GenK, ER)>) -> (r: Lc)
+    ensures r.nz(), r.wf(), forall|k: int| r.at(k) == acc(pitems(v@), k)
+{ Lc::from_iter(pairs_iter_(v)) }
+
 
 } // verus!
 fn main() {}
